@@ -813,7 +813,7 @@ fn read_all(tr: &mut Tracer, st: &mut Stats, c: &dyn Cont, n_in: usize, r: &mut 
         Ok(n) => n.min(cap),
         Err(_) => return false,
     };
-    if c.has_fast_get() && n > 0 {
+    if c.has_fast_get() && n > 0 && n <= 300 && guard(|| c.bits()).map_or(false, |b| b <= 58) {
         if put(tr, st, ev_readback(c, cap, "fast_get")) {
             return false;
         }
@@ -980,7 +980,7 @@ fn bulk_case(tr: &mut Tracer, st: &mut Stats, a: &Args, name: &str, dom: &str, p
         }
     }
     if !dead {
-        let full2 = xs.len() <= 1000;
+        let full2 = xs.len() <= 300;
         if !read_all(tr, st, c.as_ref(), xs.len(), r, full2) {
             dead = true;
         }
@@ -1093,20 +1093,28 @@ fn cases(a: &Args, name: &str) -> Vec<(&'static str, i128, i128, &'static str, u
                 if !a.thorough() && secondary && !(n == 0 || n == 2 || n == 65 || n == 129 || n == 257 || n == 1000) {
                     continue;
                 }
+                if !a.thorough() && secondary && fam == "sorted" && (n == 129 || n == 1000) && pi % 2 == 0 {
+                    continue;
+                }
                 if !a.thorough() && fam == "sorted" && (n == 63 || n == 127 || n == 255) && pi % 2 == 1 {
                     continue;
                 }
                 v.push((dom, lo, hi, p, n));
             }
             // long inputs (the IntVec strategy switch sits at 10 000 elements / 16 KiB)
-            let mut rot = Rng::new(a.seed).derive(name).derive(p).derive(dom);
+            let mut rot = Rng::new(a.seed).derive(&group_of(name)).derive(p).derive(dom);
+            let k0 = rot.next();
             for &n in LENS_BIG {
                 let take = if a.thorough() {
                     true
                 } else {
                     match fam {
                         // every (type, profile) gets one constructor per long length, rotating with the seed
-                        "intvec" => CTORS[((rot.next() % 3) as usize + pi) % 3] == name.rsplit(':').next().unwrap_or(""),
+                        // and one of the two long lengths per (type, profile)
+                        "intvec" => {
+                            let k = k0;
+                            CTORS[((k % 3) as usize + pi) % 3] == name.rsplit(':').next().unwrap_or("") && ((k >> 8) as usize + pi + n) % 2 == 0
+                        }
                         "sorted" => !secondary && name.ends_with("b6") && pi % 4 == (n % 4),
                         _ => !secondary && pi % 2 == n % 2,
                     }
